@@ -1025,6 +1025,15 @@ class Exec(Sym):
                 return
             v = self.value(st["init"], d)
             self.bind(pat, v)
+            # `let x = y;` (also as the value of an expanded helper's block): what was stored into y's fields is in x's fields now
+            src = strip(st["init"])
+            while src.get("k") == "Block" and src.get("expr") is not None:
+                src = strip(src["expr"])
+            if pat.get("k") == "PBind" and src.get("k") == "Path" and src["to"].get("res") == "local":
+                yn = src["to"]["name"]
+                for key, val in list(self.store.items()):
+                    if isinstance(key, tuple) and len(key) == 3 and key[0] == "fieldstore" and key[1] == yn:
+                        self.store[("fieldstore", pat["name"], key[2])] = val
             return
         if k == "SSemi":
             st = st["e"]
@@ -1514,6 +1523,16 @@ def fold(t, assume, discr=None, helpers=None, evalcalls=None):
                 if r_[0] in ("lit", "variant"):
                     return r_       # the helper's table decides under the current assumptions; otherwise keep the call
             ck = _callee_key(t[1])
+            if ck.endswith("Try::branch") and len(args) == 1:
+                a0_ = args[0]
+                if a0_[0] == "ctor" and str(a0_[1]).endswith(("::Some", "::Ok")) and len(a0_[2]) == 1:
+                    return ("ctor", "std::ops::ControlFlow::Continue", (a0_[2][0],))
+                if (a0_[0] == "variant" and str(a0_[1]).endswith("::None")) or (a0_[0] == "ctor" and str(a0_[1]).endswith("::Err")):
+                    return ("ctor", "std::ops::ControlFlow::Break", (a0_,))
+            if ck.endswith("FromResidual<std::option::Option<std::convert::Infallible>>>::from_residual") or ck.endswith("::from_residual"):
+                if len(args) == 1 and ((args[0][0] == "variant" and str(args[0][1]).endswith("::None")) or
+                                       (args[0][0] == "ctor" and str(args[0][1]).endswith("::Err"))):
+                    return args[0]
             if ck.endswith("bool>::then_some") and len(args) == 2 and args[0][0] == "lit" and isinstance(args[0][1], bool):
                 return ("ctor", "std::prelude::v1::Some", (args[1],)) if args[0][1] else ("variant", "std::prelude::v1::None")
             if ck.endswith("Iterator::collect") and len(args) == 1 and args[0][:1] == ("iter",) and \
@@ -1671,6 +1690,10 @@ def fold(t, assume, discr=None, helpers=None, evalcalls=None):
                         return o
                     if meth == "or" and len(args) == 2:
                         return o if some else args[1]
+                    if meth == "or_else" and len(args) == 2:
+                        return o if some else app(args[1])
+                    if meth == "ok_or" and len(args) == 2:
+                        return ("ctor", "std::result::Result::Ok", (v_,)) if some else ("ctor", "std::result::Result::Err", (args[1],))
                     if meth == "filter" and len(args) == 2:
                         c_ = app(args[1], v_) if some else None
                         if none:
